@@ -39,6 +39,7 @@ type response struct {
 type responseRouter struct {
 	c         chan<- response
 	streaming bool
+	written   bool // the request has been handed to a stream
 }
 
 type channel struct {
@@ -112,10 +113,15 @@ func (c *channel) newNodeStream(conn *grpc.ClientConn) error {
 	return nil
 }
 
-func (c *channel) cancelPendingMsgs() {
+// cancelPendingMsgs answers the pending requests with a stream is down error;
+// if writtenOnly is set, only those that have been handed to a stream.
+func (c *channel) cancelPendingMsgs(writtenOnly bool) {
 	c.responseMut.Lock()
 	defer c.responseMut.Unlock()
 	for msgID, router := range c.responseRouters {
+		if writtenOnly && !router.written {
+			continue
+		}
 		router.c <- response{nid: c.node.ID(), err: streamDownErr}
 		// the stream is down: no further reply to this request can arrive
 		delete(c.responseRouters, msgID)
@@ -138,7 +144,7 @@ func (c *channel) routeResponse(msgID uint64, resp response) {
 func (c *channel) enqueue(req request, responseChan chan<- response, streaming bool) {
 	if responseChan != nil {
 		c.responseMut.Lock()
-		c.responseRouters[req.msg.Metadata.MessageID] = responseRouter{responseChan, streaming}
+		c.responseRouters[req.msg.Metadata.MessageID] = responseRouter{c: responseChan, streaming: streaming}
 		c.responseMut.Unlock()
 	}
 	// either enqueue the request on the sendQ or respond with error if the
@@ -155,6 +161,16 @@ func (c *channel) enqueue(req request, responseChan chan<- response, streaming b
 			// the node was closed; the sender may already have stopped reading the queue
 			c.routeResponse(req.msg.Metadata.MessageID, response{nid: c.node.ID(), err: fmt.Errorf("channel closed")})
 		}
+	}
+}
+
+// markWritten records that the request is being handed to the current stream.
+func (c *channel) markWritten(msgID uint64) {
+	c.responseMut.Lock()
+	defer c.responseMut.Unlock()
+	if router, ok := c.responseRouters[msgID]; ok {
+		router.written = true
+		c.responseRouters[msgID] = router
 	}
 }
 
@@ -212,6 +228,7 @@ func (c *channel) sendMsg(req request) (err error) {
 		}
 	}()
 
+	c.markWritten(req.msg.Metadata.MessageID)
 	err = c.gorumsStream.SendMsg(req.msg)
 	if err == nil && c.streamCtx.Err() != nil {
 		// the stream was cancelled (by a watcher, or because the node was closed) while
@@ -277,7 +294,7 @@ func (c *channel) receiver() {
 			// we only reach this point when the stream failed AFTER a message
 			// was sent and we are waiting for a reply. We thus need to respond
 			// with a stream is down error on all pending messages.
-			c.cancelPendingMsgs()
+			c.cancelPendingMsgs(false)
 			// attempt to reconnect indefinitely until the node is closed.
 			// This is necessary when streaming is enabled.
 			c.reconnect(-1)
@@ -290,7 +307,7 @@ func (c *channel) receiver() {
 		select {
 		case <-c.parentCtx.Done():
 			// the node was closed: respond to the requests that are still waiting for a reply
-			c.cancelPendingMsgs()
+			c.cancelPendingMsgs(false)
 			return
 		default:
 		}
@@ -337,6 +354,11 @@ func (c *channel) reconnect(maxRetries float64) {
 			c.streamMut.Unlock()
 			return
 		}
+		// The stream we are about to replace is broken, and we may be the only one to know:
+		// if the sender replaces it while the receiver is between two reads, the receiver never
+		// sees it fail. So the requests that were written to it are answered here, before
+		// anything can be written to the new stream, or they would wait forever.
+		c.cancelPendingMsgs(true)
 		c.streamCtx, c.cancelStream = context.WithCancel(c.parentCtx)
 		c.gorumsStream, err = c.gorumsClient.NodeStream(c.streamCtx)
 		if err == nil {
